@@ -87,10 +87,14 @@ def step (m : Mode) (w : World) : List String → World × String
     -- `z`: the bound was never filled in (Go's zero time.Time, year 1): before every clock value, like 0
     let st := if st = "z" then "0" else st
     let ex := if ex = "z" then "0" else ex
-    match natLt g 256, natLt st tMax, natLt ex tMax, userLe m u, natLt k 65536, bytesLe cmd 255 with
-    | some g, some st, some ex, some u, some k, some cmd =>
-      (stepW w (.grant ⟨g, cmd, st, ex, u, k⟩), "ok")
-    | _, _, _, _, _, _ => (w, "bad-op")
+    -- `<sec>.<nsec>`: a start with a sub-second part (a grant stored by code; the wire carries whole seconds)
+    let (st, frac) := match st.splitOn "." with
+      | [a, b] => (a, natLt b ns)
+      | _ => (st, some 0)
+    match natLt g 256, natLt st tMax, natLt ex tMax, userLe m u, natLt k 65536, bytesLe cmd 255, frac with
+    | some g, some st, some ex, some u, some k, some cmd, some frac =>
+      (stepW w (.grant ⟨g, cmd, st, ex, u, k, frac⟩), "ok")
+    | _, _, _, _, _, _, _ => (w, "bad-op")
   | ["login", u, k] =>
     match userLe m u, natLt k 65536 with
     | some u, some k =>
@@ -147,7 +151,7 @@ def step (m : Mode) (w : World) : List String → World × String
       | none => (w, "nosess")
       | some s =>
         if m = .full ∧ s.usingGrant then (w, "closed") else
-        let w' := stepW w (.issue i (2000000000 * ns) ⟨g, cmd, st, ex, u, k⟩ ok)
+        let w' := stepW w (.issue i (2000000000 * ns) ⟨g, cmd, st, ex, u, k, 0⟩ ok)
         (w', if w'.issued.length > w.issued.length then "confirmed" else "denied")
     | _, _, _, _, _, _, _, _ => (w, "bad-op")
   | ["dump"] => (w, dump w.server)
